@@ -305,6 +305,24 @@ func (e *Engine) locksetFunction(fn *ssa.Function, mutexOf map[string]string) []
 			}
 		}
 	}
+	// a goroutine that is handed a *sync.WaitGroup reports to it on every return path: `defer wg.Done()` in the entry block
+	for _, p := range fn.Params {
+		if typeKey(p.Type()) != "*sync.WaitGroup" {
+			continue
+		}
+		ok := false
+		for _, ins := range fn.Blocks[0].Instrs {
+			if d, isDefer := ins.(*ssa.Defer); isDefer {
+				if c := d.Call.StaticCallee(); c != nil && c.String() == "(*sync.WaitGroup).Done" {
+					ok = true
+				}
+			}
+		}
+		if !ok {
+			p0 := fn.Prog.Fset.Position(fn.Pos())
+			findings = append(findings, fmt.Sprintf("%s: %s:%d: no `defer %s.Done()` at entry: some return path may not report to the WaitGroup", fn.Name(), shortPath(p0.Filename), p0.Line, p.Name()))
+		}
+	}
 	sort.Strings(findings)
 	return findings
 }
